@@ -163,8 +163,18 @@ def run_once(prop, tier, seed, wd, cfg, extra_head=None, nproc=1):
     extra = spec["extra"](wd) if "extra" in spec else []
     core.gen_cases(spec["family"], seed, tier, extra, cases, [cfg["line"]])
     splice_corpus(prop, cases)
-    lines, impl, model, incidents = core.run_pair(cases, wd, nproc, spec.get("model_input"))
-    return (lines, impl, model, incidents) + judge_all(prop, cfg, lines, impl, model, incidents)
+    del core.PLAIN_DIFFS[:]
+    lines, impl, model, incidents = core.run_pair(cases, wd, nproc, spec.get("model_input"), both_builds=spec.get("both_builds", False))
+    ctx, findings, evaluations, distinct, samples = judge_all(prop, cfg, lines, impl, model, incidents)
+    if spec.get("both_builds"):
+        ctx.count("lines_compared_across_builds", len(lines))
+        for (i, x, y) in core.PLAIN_DIFFS[:50]:
+            # (the time-budget suffix of `decq` may come and go)
+            if x.replace(" slow", "") == y.replace(" slow", ""):
+                continue
+            findings.append(Finding("property", i, "the library answers differently when it is compiled without debug assertions and overflow checks (as `cargo build --release` compiles it): `%s` there" % y[:200], expected=x[:300], observed=y[:300], name="build-profile independence of " + lines[i].split(" ")[0]))
+            ctx.count("findings_property")
+    return lines, impl, model, incidents, ctx, findings, evaluations, distinct, samples
 
 
 def shrink(prop, cfg, wd, pre, case, kind):
